@@ -1054,10 +1054,20 @@ fn serialise_option<T>(option: DhcpOption, bytes: &[T], v: &mut Vec<u8>)
 where
     T: Serialise,
 {
-    option.serialise(v);
-    (bytes.len() as u8).serialise(v);
-    for i in bytes.iter() {
-        i.serialise(v);
+    if bytes.is_empty() {
+        option.serialise(v);
+        0_u8.serialise(v);
+        return;
+    }
+    /* The length is a single octet.  Longer values are split over consecutive options with the
+     * same code, which the receiver concatenates (RFC 3396).
+     */
+    for chunk in bytes.chunks(255) {
+        option.serialise(v);
+        (chunk.len() as u8).serialise(v);
+        for i in chunk.iter() {
+            i.serialise(v);
+        }
     }
 }
 
